@@ -21,6 +21,11 @@ by their documented length contracts:
       with processors.len() <= count again. One step from an arbitrary state covers any number of
       regions.
   S3  policy RequireSame, the filter closure: a region qualifies iff it has at least n candidates.
+  S4  policy PreferDifferent: one step of the outer loop head (exit only with len == count, inner loop
+      only entered with len < count, None only when no candidates remain) and one step of the inner
+      `for` loop from an arbitrary state with len < count (one processor moved; break exactly at
+      count; back to the outer head with len <= count).
+  S5  policy RequireDifferent: None iff fewer than n regions, else one element per each of n regions.
 
 A satisfying assignment is turned into fake hardware (region sizes) and replayed through the public
 API of the real crate (native/selection_replay, `many_cpus` with its `test-util` feature) before it is
@@ -117,7 +122,75 @@ def h_map_get(ex, path, vals, args):
     return S.some(("VEC", "region"))
 
 
+def h_values_next(ex, path, vals, args):
+    ex.fresh += 1
+    d = z3.BitVec("values_next_is_some_%d" % ex.fresh, 8)
+    path.pc.append(z3.Or(d == 0, d == 1))
+    name = "pd_region%d" % ex.fresh
+    n = bv("len_" + name)
+    path.pc.append(n != 0)                 # depleted regions are removed by retain() after every round
+    path.pc.append(z3.ULE(n, z3.BitVecVal(1 << 32, W)))
+    path.env["@len:" + name] = n
+    return S.enum(d, {1: [("VEC", name)]})
+
+
+def h_choose(ex, path, vals, args):
+    ex.fresh += 1
+    d = z3.BitVec("choose_is_some_%d" % ex.fresh, 8)
+    path.pc.append(z3.Or(d == 0, d == 1))
+    return S.enum(d, {1: [("TUPLE", [bv("chosen_index_%d" % ex.fresh), ("OPAQUE", "&Processor")])]})
+
+
+def h_remove(ex, path, vals, args):
+    key = "@len:" + tok_of(args[0])
+    path.env[key] = path.env[key] - 1
+    return ("OPAQUE", "Processor")
+
+
+def h_push(ex, path, vals, args):
+    key = "@len:" + tok_of(args[0])
+    path.env[key] = path.env[key] + 1
+    return ("TUPLE", [])
+
+
+def h_map_len(ex, path, vals, args):
+    return path.env["@len:map"]
+
+
+def h_map_iter(ex, path, vals, args):
+    return ("SLICE", "map")
+
+
+def h_iter_sample(ex, path, vals, args):
+    amount = args[2]
+    n = length(path, args[0])
+    ex.fresh += 1
+    name = "sampled%d" % ex.fresh
+    path.env["@len:" + name] = z3.If(z3.ULE(amount, n), amount, n)
+    return ("VEC", name)
+
+
+def h_into_iter(ex, path, vals, args):
+    return ("ITER", length(path, args[0]))
+
+
 OPAQUE = (
+    (r"^HashMap::<u32, Vec<processor::Processor>, foldhash::fast::RandomState>::is_empty$", "map_is_empty", "bool?"),
+    (r"^HashMap::<u32, Vec<processor::Processor>, foldhash::fast::RandomState>::values_mut$", "values_mut", "unit"),
+    (r"^<std::collections::hash_map::ValuesMut<'_, u32, Vec<processor::Processor>> as IntoIterator>::into_iter$", "into_iter", "pass"),
+    (r"^<std::collections::hash_map::ValuesMut<'_, u32, Vec<processor::Processor>> as Iterator>::next$", "values_next", h_values_next),
+    (r"^core::slice::<impl \[processor::Processor\]>::iter$", "slice_iter", "pass"),
+    (r"^<std::slice::Iter<'_, processor::Processor> as Iterator>::enumerate$", "enumerate", "pass"),
+    (r"IteratorRandom>::choose::<ThreadRng>$", "choose", h_choose),
+    (r"^<processor::Processor as Clone>::clone$", "clone", "unit"),
+    (r"^Vec::<processor::Processor>::remove$", "remove", h_remove),
+    (r"^Vec::<processor::Processor>::push$", "push", h_push),
+    (r"^HashMap::<u32, Vec<processor::Processor>, foldhash::fast::RandomState>::retain::<", "retain", "unit"),
+    (r"^HashMap::<u32, Vec<processor::Processor>, foldhash::fast::RandomState>::len$", "map_len", h_map_len),
+    (r"^HashMap::<u32, Vec<processor::Processor>, foldhash::fast::RandomState>::iter$", "map_iter", h_map_iter),
+    (r"^<std::collections::hash_map::Iter<'_, u32, Vec<processor::Processor>> as rand::prelude::IteratorRandom>::sample::<ThreadRng>$", "iter_sample", h_iter_sample),
+    (r"^<Vec<\(&u32, &Vec<processor::Processor>\)> as IntoIterator>::into_iter$", "vec_into_iter", h_into_iter),
+    (r"^<std::vec::IntoIter<\(&u32, &Vec<processor::Processor>\)> as Iterator>::map::<", "iter_map", "pass"),
     (r"^Vec::<processor::Processor>::len$", "len", h_len),
     (r"^<Vec<processor::Processor> as Deref>::deref$", "deref", "pass"),
     (r"^rng$", "rng", "unit"),
@@ -385,6 +458,124 @@ def s3_require_same_filter(funcs, out):
     return viol
 
 
+def s4_prefer_different(fn, funcs, out):
+    """PreferDifferent: one step of the outer loop head and one step of the inner `for` loop"""
+    P = preds(fn)
+    b_next = block_with_call(fn, r"ValuesMut<'_, u32, Vec<processor::Processor>> as Iterator>::next\(")
+    b_isempty = None
+    for n, b in fn.blocks.items():
+        if not b.cleanup and b.term and re.search(r"RandomState>::is_empty\(", b.term[0]) and n in P:
+            if any(" = Lt(" in t for (t, _) in fn.blocks[P[n][0]].stmts):
+                b_isempty = n
+    if b_isempty is None:
+        raise S.Unsupported("PreferDifferent: is_empty test inside the loop not found")
+    b_sw_outer = P[b_isempty][0]
+    # outer head: the block chain len() -> get() -> switch; walk back from the switch to the len call
+    cur = b_sw_outer
+    b_outer = None
+    for _ in range(4):
+        cur = P[cur][0]
+        if "Vec::<processor::Processor>::len(" in fn.blocks[cur].term[0]:
+            b_outer = cur
+            break
+    if b_outer is None:
+        raise S.Unsupported("PreferDifferent outer loop head not found")
+    ms = re.match(r"^switchInt\(.+?\) -> \[0: (bb\d+), otherwise: (bb\d+)\];$", fn.blocks[b_sw_outer].term[0])
+    b_exit = ms.group(1)
+    _, arg = call_dst_and_args(fn, b_outer)
+    ref_local = re.match(r"^(?:move|copy) (_\d+)$", arg.strip()).group(1)
+    vec_local = [re.match(r"^%s = &(_\d+);$" % re.escape(ref_local), t).group(1) for (t, _) in fn.blocks[b_outer].stmts if re.match(r"^%s = &(_\d+);$" % re.escape(ref_local), t)][0]
+    nz_local = None
+    for n, b in fn.blocks.items():
+        mm = re.match(r"^_\d+ = NonZero::<usize>::get\(copy (_\d+)\)", b.term[0] if b.term else "")
+        if mm:
+            nz_local = mm.group(1)
+    res_blocks = [n for n, b in fn.blocks.items() if not b.cleanup and b.term and "from_residual(" in b.term[0]]
+    none_blocks = [n for n, b in fn.blocks.items() if not b.cleanup and any(t.startswith("_0 = Option::<processor_set::ProcessorSet>::None") for (t, _) in b.stmts)]
+    count, plen = bv("count"), bv("processors_len")
+    base_env = {vec_local: ("VEC", "processors"), "@len:processors": plen, nz_local: count}
+    viol = []
+    seen = set()
+    for frag, start, pre_extra in (("outer head", b_outer, z3.ULE(plen, count)), ("inner step", b_next, z3.ULT(plen, count))):
+        ex = S.SymExec(funcs, OPAQUE, {})
+        pre = [count != 0, z3.ULE(count, z3.BitVecVal(1 << 32, W)), pre_extra]
+        stop = tuple({b_outer, b_next, b_exit} | set(none_blocks) | {ret_target(fn, r) for r in res_blocks})
+        paths = ex.run(fn, start, dict(base_env), stop=stop)
+        for pa in paths:
+            kind = pa.outcome[0]
+            if kind in ("PANIC", "UNREACHABLE"):
+                r, m, s = check(pre + pa.pc)
+                out["queries"].append(dict(q="S4 PreferDifferent %s: %s path infeasible" % (frag, kind.lower()), result=str(r), s=s))
+                if r != z3.unsat:
+                    out["noverdict"].append("S4 %s: %s path feasible or unknown (%s)" % (frag, kind, pa.outcome))
+                continue
+            tgt = pa.outcome[1]
+            now = pa.env["@len:processors"]
+            if tgt == b_exit:
+                post, what = now == count, "leaves the loop with processors.len() == count"
+            elif tgt == b_next:
+                post, what = z3.ULT(now, count), "(re-)enters the inner loop with processors.len() < count"
+            elif tgt == b_outer:
+                post, what = z3.ULE(now, count), "returns to the outer head with processors.len() <= count"
+            else:
+                post, what = z3.BoolVal(True), "returns None (candidates exhausted)"
+            seen.add((frag, what.split(" with")[0]))
+            r, m, s = check(pre + pa.pc + [z3.Not(post), z3.ULE(count, 6)])       # replay-friendly first
+            if r == z3.unsat:
+                r, m, s2 = check(pre + pa.pc + [z3.Not(post)])
+                s += s2
+            out["queries"].append(dict(q="S4 PreferDifferent %s: %s" % (frag, what), result=str(r), s=s))
+            if r == z3.sat:
+                viol.append(dict(label="PreferDifferent %s breaks the count invariant: %s fails" % (frag, what), line=None, policy="prefer_different",
+                                 assignment=dict(count=m.eval(count, True).as_long(), processors_len=m.eval(plen, True).as_long())))
+            elif r != z3.unsat:
+                out["noverdict"].append("S4: solver %s" % r)
+        out["functions"].append("ProcessorSetBuilder::take, PreferDifferent %s from %s (MIR, %d paths)" % (frag, start, len(paths)))
+    out["witness"].append(dict(q="S4 reached %d distinct outcomes" % len(seen), ok=len(seen) >= 6))
+    return viol
+
+
+def s5_require_different(fn, funcs, out):
+    b_len = block_with_call(fn, r"RandomState>::len\(")
+    b_collect = None
+    for n, b in fn.blocks.items():
+        if not b.cleanup and b.term and "as Itertools>::collect_vec(" in b.term[0] and "std::iter::Map<std::vec::IntoIter<(&u32" in b.term[0]:
+            b_collect = n
+    if b_collect is None:
+        raise S.Unsupported("RequireDifferent collect_vec not found")
+    nz_local = re.match(r"^_\d+ = NonZero::<usize>::get\(copy (_\d+)\)", fn.blocks[ret_target(fn, b_len)].term[0]).group(1)
+    none_blocks = [n for n, b in fn.blocks.items() if not b.cleanup and any(t.startswith("_0 = Option::<processor_set::ProcessorSet>::None") for (t, _) in b.stmts)]
+    ex = S.SymExec(funcs, OPAQUE, {})
+    count, mlen = bv("count"), bv("regions")
+    env = {nz_local: count, "@len:map": mlen}
+    pre = [count != 0, z3.ULE(mlen, z3.BitVecVal(1 << 32, W))]
+    paths = ex.run(fn, b_len, env, stop=tuple([ret_target(fn, b_collect)] + none_blocks))
+    viol = []
+    seen = set()
+    for pa in paths:
+        if pa.outcome[0] != "EXIT":
+            raise S.Unsupported("RequireDifferent path ends with %r" % (pa.outcome,))
+        if pa.outcome[1] == ret_target(fn, b_collect):
+            seen.add("some")
+            vecs = [v for k, v in pa.env.items() if k.startswith("@len:collected")]
+            post = z3.And(vecs[0] == count, z3.UGE(mlen, count))
+            what = "one processor from each of exactly n regions"
+        else:
+            seen.add("none")
+            post = z3.ULT(mlen, count)
+            what = "None only if fewer than n regions"
+        r, m, s = check(pre + pa.pc + [z3.Not(post)])
+        out["queries"].append(dict(q="S5 RequireDifferent: " + what, result=str(r), s=s))
+        if r == z3.sat:
+            viol.append(dict(label="policy RequireDifferent: %s fails" % what, line=None, policy="require_different",
+                             assignment=dict(count=m.eval(count, True).as_long(), regions=m.eval(mlen, True).as_long())))
+        elif r != z3.unsat:
+            out["noverdict"].append("S5: solver %s" % r)
+    out["witness"].append(dict(q="S5 reached %s" % sorted(seen), ok=seen == {"some", "none"}))
+    out["functions"].append("ProcessorSetBuilder::take, blocks %s..%s = policy RequireDifferent (MIR, %d paths)" % (b_len, b_collect, len(paths)))
+    return viol
+
+
 def replay(v, repo):
     nd = os.path.join(M.VERIF, "native", "selection_replay")
     cache = os.environ.get("FOLO_VERIF_CACHE") or os.path.join(M.VERIF, ".cache")
@@ -404,15 +595,20 @@ def replay(v, repo):
     shutil.copyfile(os.path.join(repo, "Cargo.lock"), os.path.join(src, "Cargo.lock"))
     a = v["assignment"]
     pol = v["policy"]
+    n = a["count"]
+    # candidate hardware shapes (region sizes) derived from the assignment; the violation is
+    # reproduced if the real crate breaks C09's cardinality clause on any of them
     if pol == "prefer_same":
-        sizes = [a["processors_len"], a["region_len"]]
-        if a["processors_len"] == 0:
-            sizes = [a["region_len"]]
+        shapes = [[a["processors_len"], a["region_len"]] if a["processors_len"] else [a["region_len"]]]
     elif pol == "any":
-        sizes = [a["all_len"]]
+        shapes = [[a["all_len"]]]
+    elif pol == "prefer_different":
+        shapes = [[1] * (n + 1), [max(1, n // 2), max(1, n - n // 2), 1], [n, n], [1] * max(1, n - 1) + [2]]
+    elif pol == "require_different":
+        shapes = [[1] * max(1, a["regions"]), [2] * max(1, a["regions"])]
     else:
-        sizes = [a["region_len"]]
-    if any(x > 256 for x in sizes) or a["count"] > 256 or any(x == 0 for x in sizes):
+        shapes = [[a["region_len"]], [a["region_len"], a["region_len"]]]
+    if n > 64 or any(x > 64 or x == 0 for sh in shapes for x in sh) or any(len(sh) > 65 for sh in shapes):
         return dict(skipped="assignment too large (or degenerate) to build as fake hardware: %s" % a)
     res = {}
     for prof in ("dev", "release"):
@@ -422,13 +618,18 @@ def replay(v, repo):
             res[prof] = dict(error="build failed: " + b.stderr[-300:])
             continue
         exe = os.path.join(tdir, "debug" if prof == "dev" else "release", "folo_verif_selection_replay")
-        r = subprocess.run([exe, pol, str(a["count"])] + [str(x) for x in sizes], capture_output=True, text=True, timeout=120)
-        res[prof] = dict(rc=r.returncode, stderr=r.stderr[-300:], stdout=r.stdout[-200:], args=[pol, a["count"]] + sizes)
+        res[prof] = dict(rc=0, tried=[])
+        for sizes in shapes:
+            r = subprocess.run([exe, pol, str(n)] + [str(x) for x in sizes], capture_output=True, text=True, timeout=120)
+            res[prof]["tried"].append([pol, n] + sizes)
+            if r.returncode != 0:
+                res[prof].update(rc=r.returncode, stderr=r.stderr[-300:], stdout=r.stdout[-200:], args=[pol, n] + sizes)
+                break
     return res
 
 
 OUTSIDE = [
-    "everything but cardinality: membership in the source set, filters / exclusions / efficiency classes, distinctness, the region constraints themselves, the quota (take_all, resource quota), PreferDifferent / RequireDifferent arms",
+    "everything but cardinality: membership in the source set, filters / exclusions / efficiency classes, distinctness, the region constraints themselves (which regions the chosen processors come from), the resource quota, take_all; in RequireDifferent the per-region closure (one processor per chosen region) is assumed to yield one element",
     "the containers and the random sampling themselves (abstracted to their documented length contracts, listed in the evidence assumptions)",
     "more than 2^32 processors / regions (lengths are assumed <= 2^32 so that usize sums cannot wrap)",
 ]
@@ -436,6 +637,7 @@ ASSUMPTIONS = [
     "mirsym: containers are abstracted to a symbolic length; Vec::len returns it; slice.sample(rng, amount) yields min(amount, len) elements (rand's documented contract); Vec::extend adds the number of yielded elements; collect_vec has the yielded length",
     "mirsym: VecDeque::pop_front returns an arbitrary Some/None; HashMap::get of a key taken from keys() returns Some; every candidate region is non-empty (regions are built by grouping candidates)",
     "mirsym: Try::branch / FromResidual for Option, <usize as Ord>::min, NonZero::get by their documented semantics",
+    "mirsym: HashMap::values_mut().next() is an arbitrary Some(non-empty region)/None; IteratorRandom::choose is an arbitrary Some/None; Vec::remove / Vec::push change the length by one; HashMap::len / iter().sample(rng, n) / into_iter / map / collect_vec carry min(n, len) elements; HashMap::is_empty and retain are opaque",
 ]
 
 
@@ -464,7 +666,8 @@ def main():
         out["noverdict"].append(str(e))
         print(json.dumps(out))
         return
-    for name, q in (("s1_any", lambda: s1_any(fn, funcs, out)), ("s2_prefer_same", lambda: s2_prefer_same(fn, funcs, out)), ("s3_require_same_filter", lambda: s3_require_same_filter(funcs, out))):
+    for name, q in (("s1_any", lambda: s1_any(fn, funcs, out)), ("s2_prefer_same", lambda: s2_prefer_same(fn, funcs, out)), ("s3_require_same_filter", lambda: s3_require_same_filter(funcs, out)),
+                    ("s4_prefer_different", lambda: s4_prefer_different(fn, funcs, out)), ("s5_require_different", lambda: s5_require_different(fn, funcs, out))):
         try:
             viol += q()
         except (S.Unsupported, KeyError, IndexError, AttributeError) as e:
